@@ -368,6 +368,16 @@ func checkC07(c *Check, p *Program) {
 			if !ok || call.Common().StaticCallee() == nil || !strings.HasPrefix(call.Common().StaticCallee().Name(), "pack") {
 				return
 			}
+			// 8-bit values: the exact value set on the paths into the call (any form of the test: comparisons, masks)
+			if set, okF := finSetAt(call.Common().Args[0], call.Block()); okF {
+				var rs [][2]int
+				for _, s := range spec.sets {
+					rs = append(rs, [2]int{int(s.lo), int(s.hi)})
+				}
+				okS, bad := finSetWithin(set, rs)
+				c.Decide(okS, "C07.saturate", dptName(dt)+" only documented values are encoded", p.InstrPos(call), "exact value set inside the documented ranges", fmt.Sprintf("the value %d can be encoded, outside the documented set", bad))
+				return
+			}
 			for _, iv := range edgeIntervals(call.Common().Args[0], call.Block()) {
 				okS := false
 				for _, s := range spec.sets {
@@ -421,6 +431,32 @@ func checkC07(c *Check, p *Program) {
 		pf, _ := prod.Float64()
 		// exact when the constants are exact; a decimal constant rounded to float32 may differ by a few ulp
 		c.Decide(math.Abs(pf-1) < 1.0/(1<<20), "C07.scale", name+" decode scale inverts encode scale", pos, fmt.Sprintf("encode x%s, decode x%s", kp.RatString(), ku.RatString()), fmt.Sprintf("encoder multiplies by %s and decoder by %s: their product is %s, not 1", kp.RatString(), ku.RatString(), prod.RatString()))
+		// a saturation branch (constant raw code R on the value range [lo, hi]) must not capture values that
+		// belong to a neighbouring code: (R-1)/k and (R+1)/k lie outside [lo, hi].  Otherwise a bound that is
+		// off by one step re-encodes a decodable value to another code and saturates inside the range.
+		kf, _ := kp.Float64()
+		instrsOf(dt.Pack, func(in ssa.Instruction) {
+			call, ok := in.(*ssa.Call)
+			if !ok || call.Common().StaticCallee() == nil || !strings.HasPrefix(call.Common().StaticCallee().Name(), "pack") || len(call.Common().Args) != 1 {
+				return
+			}
+			r, isK := constInt(call.Common().Args[0])
+			if !isK || len(dt.Pack.Params) == 0 || kf == 0 {
+				return
+			}
+			tr, okT := typeRange(call.Common().Args[0].Type())
+			for _, iv := range edgeIntervals(dt.Pack.Params[0], call.Block()) {
+				for _, nb := range []int64{r - 1, r + 1} {
+					if okT && (float64(nb) < tr.lo || float64(nb) > tr.hi) {
+						continue
+					}
+					v := float64(nb) / kf
+					eps := math.Abs(v) * 1e-6
+					inside := v >= iv.lo-eps && v <= iv.hi+eps
+					c.Decide(!inside, "C07.saturate", fmt.Sprintf("%s saturation to %d spares the neighbouring code %d", name, r, nb), p.InstrPos(call), fmt.Sprintf("%g lies outside the saturated range %s", v, fivString(iv)), fmt.Sprintf("the branch that encodes the constant %d is taken for values in %s, which contains %g = the value of code %d: that value saturates although it is representable (its re-encoding is a different code)", r, fivString(iv), v, nb))
+				}
+			}
+		})
 		rel, _ := new(big.Rat).Quo(kp, want).Float64()
 		c.Decide(math.Abs(rel-1) < 1.0/(1<<20), "C07.scale", name+" scale equals the format's", pos, fmt.Sprintf("%s (float32 rendering of %s)", kp.RatString(), want.RatString()), fmt.Sprintf("encoder scale is %s, the datapoint format prescribes %s", kp.RatString(), want.RatString()))
 	}
@@ -675,6 +711,7 @@ func checkC06(c *Check, p *Program) {
 
 	dts := dptTypes(c, p, "C06.types")
 	c.Floor("C06.types", "registered datapoint types", len(dts), 174)
+	checkStringCharsets(c, p, dts)
 	memo := map[*ssa.Function]lenGuard{}
 	proved, outside := []string{}, []string{}
 	for _, dt := range dts {
@@ -719,6 +756,35 @@ func checkC06(c *Check, p *Program) {
 		if !ok {
 			c.Fail("C06.replace", "dpt "+k, "", "not registered")
 			continue
+		}
+		// exact formulation for one-octet types: with D the decoder's octet -> value table and E the
+		// encoder's value -> octet table, D(E(D(x))) = D(x) for all 256 octets
+		{
+			var dsites, esites []finSite
+			for _, st := range receiverStores(dt.Unpack) {
+				dsites = append(dsites, finSite{st.Val, st.Block()})
+			}
+			instrsOf(dt.Pack, func(in ssa.Instruction) {
+				if call, ok := in.(*ssa.Call); ok && call.Common().StaticCallee() != nil && strings.HasPrefix(call.Common().StaticCallee().Name(), "pack") && len(call.Common().Args) == 1 {
+					esites = append(esites, finSite{call.Common().Args[0], call.Block()})
+				}
+			})
+			dtab, okD := finFunc(dsites)
+			etab, okE := finFunc(esites)
+			if okD && okE {
+				bad := -1
+				for x := 0; x < 256; x++ {
+					if dtab[etab[dtab[x]]] != dtab[x] {
+						bad = x
+					}
+				}
+				why := ""
+				if bad >= 0 {
+					why = fmt.Sprintf("octet %d decodes to %d, which is encoded as %d and decodes to %d: a decoded value is replaced on write-back", bad, dtab[bad], etab[dtab[bad]], dtab[etab[dtab[bad]]])
+				}
+				c.Decide(bad < 0, "C06.replace", dptName(dt)+" keeps exactly the values the encoder keeps", p.Pos(dt.Unpack.Pos()), "decode(encode(decode(x))) = decode(x) for all 256 octets", why)
+				continue
+			}
 		}
 		var pk, un []fiv
 		instrsOf(dt.Pack, func(in ssa.Instruction) {
@@ -935,4 +1001,67 @@ func composeIdentity(c *Check, p *Program, dt dptType, g lenGuard) (bool, string
 		return false, mismatch, 0
 	}
 	return true, "", nPairs
+}
+
+// checkStringCharsets: for the fixed-length string types, every character the
+// decoder can produce is one the encoder writes back unchanged (the decoder's
+// character set is inside the set the encoder keeps), so re-encoding a decoded
+// string does not replace characters.
+func checkStringCharsets(c *Check, p *Program, dts []dptType) {
+	n := 0
+	for _, dt := range dts {
+		if dt.Main != 16 {
+			continue
+		}
+		n++
+		name := dptName(dt)
+		// decoder: values appended to the rune buffer
+		maxDec, nApp, okDec := -1, 0, true
+		instrsOf(dt.Unpack, func(in ssa.Instruction) {
+			call, ok := in.(*ssa.Call)
+			if !ok || builtinName(call) != "append" {
+				return
+			}
+			items, _ := varargItems(call.Common().Args[1])
+			if len(items) != 1 {
+				okDec = false
+				return
+			}
+			nApp++
+			set, okS := finSetAt(items[0], call.Block())
+			if !okS {
+				okDec = false
+				return
+			}
+			for v, in := range set {
+				if in && v > maxDec {
+					maxDec = v
+				}
+			}
+		})
+		// encoder: a rune is written as byte(r) only below a limit, replaced otherwise
+		keep := math.Inf(1)
+		nKeep := 0
+		instrsOf(dt.Pack, func(in ssa.Instruction) {
+			st, ok := in.(*ssa.Store)
+			if !ok {
+				return
+			}
+			cv, ok := st.Val.(*ssa.Convert)
+			if !ok {
+				return
+			}
+			if bt, ok := cv.X.Type().Underlying().(*types.Basic); !ok || bt.Kind() != types.Int32 {
+				return
+			}
+			nKeep++
+			iv := numInterval(cv.X, st.Block(), 0)
+			if iv.hi < keep {
+				keep = iv.hi
+			}
+		})
+		pos := p.Pos(dt.Unpack.Pos())
+		c.Decide(okDec && nApp >= 1 && nKeep >= 1 && float64(maxDec) <= keep && keep <= 255, "C06.charset", name+" decoded characters survive re-encoding", pos, fmt.Sprintf("decoder yields characters <= %d, encoder keeps characters <= %g", maxDec, keep), fmt.Sprintf("the decoder can yield the character %d but the encoder keeps only characters <= %g (others are replaced): re-encoding a decoded string changes it (decoder understood=%v, append sites=%d, keep sites=%d)", maxDec, keep, okDec, nApp, nKeep))
+	}
+	c.Floor("C06.charset", "fixed-length string types", n, 2)
 }
